@@ -55,6 +55,9 @@ type Registry struct {
 	specCache spec
 }
 
+// what encoding/json says about a channel inside a result
+const encoderSays = "json: unsupported type: chan int"
+
 func textC(s string) spec { return spec{"k": "text", "text": s, "ann": nil} }
 
 func resultSpec(content any, structured any, isErr bool, meta spec) spec {
@@ -94,7 +97,7 @@ var allTools = []toolDef{
 		handler: func(ctx context.Context, req *mcp.CallToolRequest) (*mcp.CallToolResult, error) {
 			return nil, errors.New("kaboom: disk <on> fire")
 		}},
-	{name: "chan", desc: "a result json.Marshal refuses", class: "unencodable", out: spec{"k": "unenc"},
+	{name: "chan", desc: "a result json.Marshal refuses", class: "unencodable", errText: encoderSays, out: spec{"k": "unenc", "why": encoderSays},
 		handler: func(ctx context.Context, req *mcp.CallToolRequest) (*mcp.CallToolResult, error) {
 			return &mcp.CallToolResult{Content: []mcp.Content{mcp.NewTextContent("x")}, StructuredContent: make(chan int)}, nil
 		}},
@@ -143,7 +146,7 @@ var allPrompts = []promptDef{
 		handler: func(ctx context.Context, req *mcp.GetPromptRequest) (*mcp.GetPromptResult, error) {
 			return &mcp.GetPromptResult{}, nil
 		}},
-	{name: "p-chan", desc: "a result json.Marshal refuses", class: "unencodable", out: spec{"k": "unenc"},
+	{name: "p-chan", desc: "a result json.Marshal refuses", class: "unencodable", errText: encoderSays, out: spec{"k": "unenc", "why": encoderSays},
 		handler: func(ctx context.Context, req *mcp.GetPromptRequest) (*mcp.GetPromptResult, error) {
 			return &mcp.GetPromptResult{Result: mcp.Result{Meta: map[string]any{"c": make(chan int)}}, Messages: []mcp.PromptMessage{}}, nil
 		}},
